@@ -176,6 +176,21 @@ func New(stack *node.Node, config *Config) (*Kardiachain, error) {
 		return nil, err
 	}
 
+	// Finish a commit that a crash interrupted: consensus saves a block, records the end of
+	// the height in its log and only then applies the block, so the block above the loaded
+	// state may be stored but not applied. Consensus cannot catch up on it by itself: its log
+	// refuses to replay a height whose end it has already recorded.
+	if meta := bOper.LoadBlockMeta(state.LastBlockHeight + 1); meta != nil {
+		blockExec.SetEventBus(eventBus)
+		block := bOper.LoadBlock(meta.Header.Height)
+		if bOper.Height() < block.Height() {
+			bOper.SaveBlock(block, block.MakePartSet(types.BlockPartSizeBytes), bOper.LoadSeenCommit(block.Height()))
+		}
+		if state, _, err = blockExec.ApplyBlock(state, meta.BlockID, block); err != nil {
+			return nil, err
+		}
+	}
+
 	// state starting configs
 	// Set private validator for consensus manager.
 	privValidator := types.NewDefaultPrivValidator(stack.Config().NodeKey())
